@@ -18,6 +18,7 @@
 import NemoVerif.Lemmas.Pipeline
 import NemoVerif.Lemmas.PipelineV2
 import NemoVerif.Lemmas.PipelineTie
+import NemoVerif.Lemmas.PipelineCtx
 
 set_option linter.unusedSimpArgs false
 
@@ -268,5 +269,104 @@ theorem every_turn_v2 (cfg : Cfg) (hfr : cfg.flagReset = true) (hi : WF cfg .inp
     rcases hp with rfl | hp
     · exact ⟨input_order_v2 cfg h t hi ho hor, turnV2_orip cfg h t hfr hor⟩
     · exact every_turn_v2 cfg hfr hi ho ts _ (turnV2_orip cfg h t hfr hor) p hp
+
+/-! ### Colang 1.0: the two contexts (`Models/PipelineCtx.lean`), input side
+
+`convE false` is the event-level program of the code as it is (`slide`, `_process_start_action`,
+`apply_history_alterations`, `compute_context`), started from an ARBITRARY event list `es` and run on an
+arbitrary conversation `ts` (repeated user texts, hidden turns, action rails reading the actions' context
+and pure-Colang rails reading the flows' context in any order). -/
+
+section TwoContexts
+open NemoVerif.PipelineCtx
+
+theorem mem_zip_map {α β : Type} (f : α → β) : ∀ (l : List α) (p : α × β), p ∈ List.zip l (l.map f) → p.2 = f p.1
+  | [], _, h => by simp at h
+  | a :: l, p, h => by
+    simp only [List.map_cons, List.zip_cons_cons, List.mem_cons] at h
+    rcases h with rfl | h
+    · rfl
+    · exact mem_zip_map f l p h
+
+/-- `input_rails_see_current_text`: in every turn of every conversation the input rails that run are exactly
+    `gate` of the user text of THAT turn — each rail, of either kind, is shown the turn's own message in
+    the form its predecessor left; never the message of an earlier (hidden, rejected, answered) turn. -/
+theorem input_rails_see_current_text (inRails outRails : List Rail) (es : List Ev) (ts : List TurnE) :
+    ∀ p ∈ List.zip ts (convE false inRails outRails es ts),
+      p.2.inCalls = gate p.1.vin (ids inRails) p.1.user ∧ Chained p.1.vin p.1.user p.2.inCalls := by
+  intro p hp
+  rw [convE_eq_spec] at hp
+  have h := mem_zip_map _ ts p hp
+  rw [h]
+  have : (specTurn (ids inRails) (ids outRails) p.1).inCalls = gate p.1.vin (ids inRails) p.1.user := by
+    unfold specTurn
+    split
+    · rfl
+    · split <;> rfl
+  rw [this]
+  exact ⟨rfl, gate_chained _ _ _⟩
+
+/-- `llm_sees_checked_user_text`: `UserMessage(text=$user_message)` — resolved on the action side; it is what
+    every dialog / generation step is given — exists only when no input rail blocked, and then carries the
+    turn's own text after all rewrites of this turn. -/
+theorem llm_sees_checked_user_text (inRails outRails : List Rail) (es : List Ev) (ts : List TurnE) :
+    ∀ p ∈ List.zip ts (convE false inRails outRails es ts), ∀ um, p.2.userMsg = some um →
+      gateStop p.1.vin (ids inRails) p.1.user = none ∧ um = gateText p.1.vin (ids inRails) p.1.user := by
+  intro p hp um hum
+  rw [convE_eq_spec] at hp
+  have h := mem_zip_map _ ts p hp
+  rw [h] at hum
+  unfold specTurn at hum
+  split at hum
+  · simp at hum
+  · rename_i hg
+    refine ⟨hg, ?_⟩
+    split at hum <;> simpa using hum.symm
+
+/-- non-vacuity / the repeated-text scenario on the input side: U passes (rewritten by rail 0); V: the second
+    rail raises (turn hidden); U again, not rewritten this time. -/
+example :
+    (convE false [⟨0, false⟩, ⟨1, false⟩] [] []
+      [{ user := "U", bot := "b", vin := fun r _ => if r = 0 then .rewrite "W" else .accept, vout := fun _ _ => .accept, dialogFault := false },
+       { user := "V", bot := "b", vin := fun r _ => if r = 1 then .fault else .accept, vout := fun _ _ => .accept, dialogFault := false },
+       { user := "U", bot := "b", vin := fun _ _ => .accept, vout := fun _ _ => .accept, dialogFault := false }]).map (fun o => (o.inCalls, o.userMsg))
+    = [([(0, "U"), (1, "W")], some "W"), ([(0, "V"), (1, "V")], none), ([(0, "U"), (1, "U")], some "U")] := by decide
+
+/-- `every_call_gated_v1` (generation options per call): in a conversation whose calls carry their OWN options
+    (`convV1P`: a call may switch the input and / or output rails off for itself, a call without options enables all
+    rails), every call whose options enable the input rails runs exactly `gate` of all configured input rails on
+    ITS message — whatever options earlier calls had — and a call that switched them off runs none.
+    (`$skip_output_rails` is unset at every boundary.) -/
+theorem every_call_gated_v1 (cfg : Cfg) (hi : WF cfg .input) :
+    ∀ (cs : List (CallOpts × Turn)) (h : HistV1), h.skip = false →
+      ∀ p ∈ List.zip cs (convV1P cfg h cs),
+        railCalls .input p.2.1 = gate p.1.2.vin (if p.1.1.input then cfg.inRails else []) p.1.2.user ∧ p.2.2.2.skip = false
+  | [], _, _ => by simp [convV1P]
+  | (o, t) :: cs, h, hs => by
+    intro p hp
+    simp only [convV1P, List.zip_cons_cons, List.mem_cons] at hp
+    have hwf : WF (callCfg cfg o) .input := fun he r => hi he r
+    rcases hp with rfl | hp
+    · exact ⟨input_order_v1 (callCfg cfg o) h t hwf, turnV1_skip (callCfg cfg o) h t hs⟩
+    · exact every_call_gated_v1 cfg hi cs _ (turnV1_skip (callCfg cfg o) h t hs) p hp
+
+/-- non-vacuity: call 1 switches the input rails off, call 2 passes no options and is rejected by rail 0. -/
+example :
+    (convV1P { inRails := [0], outRails := [], dialog := false, exc := false, stops := fun _ _ => true, flagReset := true } initV1
+      [({ input := false }, { user := "u1", bot := "b1", intent := .free, actFault := false, retrFault := false, vin := fun _ _ => .reject, vout := fun _ _ => .accept }),
+       ({}, { user := "u2", bot := "b2", intent := .free, actFault := false, retrFault := false, vin := fun _ _ => .reject, vout := fun _ _ => .accept })]).map
+      (fun r => (railCalls .input r.1, r.2.1.texts))
+    = [([], ["b1"]), ([(0, "u2")], [refusal])] := by decide
+
+/-- the same at event level, from every event list: the rails of each call are those ITS options enable. -/
+theorem every_call_sees_current_text (inRails outRails : List Rail) :
+    ∀ (es : List Ev) (cs : List (CallOpts × TurnE)),
+      convEP false inRails outRails es cs =
+        cs.map fun c => specTurn (ids (if c.1.input then inRails else [])) (ids (if c.1.output then outRails else [])) c.2
+  | _, [] => rfl
+  | es, (o, t) :: cs => by
+    simp only [convEP, List.map_cons, turnE_spec, every_call_sees_current_text inRails outRails _ cs]
+
+end TwoContexts
 
 end NemoVerif.C01
